@@ -312,6 +312,12 @@ func (rs *reqState) probeOutcome() probeOutcome {
 	resp := rs.q.response()
 	cv := rs.decodeResponse(resp)
 	switch {
+	case resp.Status == 501 && (rs.spec.Proto == "http" || rs.spec.Proto == "ws"):
+		// On the HTTP path 501 means "a route matched but its method has no
+		// handler". No single routing state contains that (a method's rules
+		// and handlers are added and removed together; a method without
+		// handlers has no route: 404), so the request saw two states.
+		return probeOutcome{Other: "HTTP 501: a route matched but the method had no handler - the request was resolved against two different routing states"}
 	case resp.Status == 404 || resp.Status == 501:
 		return probeOutcome{Unimpl: true}
 	case cv.Status.Present && (cv.Status.Code == 12 || cv.Status.Code == 5):
